@@ -1,6 +1,7 @@
 #!/usr/bin/env python3
 """setup.py — MANIFEST.setup_cmd: build the Lean library (all models, proofs, property
-theorems) and the verifdrv executable from files on disk.  Offline."""
+theorems of the claimed checks) and the verifdrv executable from files on disk.  Offline."""
+import json
 import os
 import sys
 
@@ -9,4 +10,27 @@ import vlib  # noqa: E402
 
 r = vlib.lean_setup()
 sys.stdout.write(r.stdout[-3000:])
-sys.exit(r.returncode)
+rc = r.returncode
+try:
+    man = json.load(open(os.path.join(vlib.VERIF, "MANIFEST.json")))
+    mods = ["LibfiberVerif.Props." + c["property_id"] for c in man.get("checks", [])]
+except Exception:
+    mods = []
+for pid_mod in mods:
+    spec_pre = None
+    try:
+        from specs import SPECS
+        spec_pre = SPECS[pid_mod.split(".")[-1]].get("pre")
+    except Exception:
+        pass
+    if spec_pre:
+        try:
+            spec_pre(vlib.REPO)
+        except Exception as e:
+            print("pre-step failed for %s: %s" % (pid_mod, e))
+if mods:
+    with vlib.FileLock("lake"):
+        r2 = vlib.sh(["lake", "build"] + mods, cwd=vlib.LEAN, timeout=7200)
+    sys.stdout.write(r2.stdout[-3000:])
+    # a failing property module is that property's problem (its check reports it), not setup's
+sys.exit(rc)
